@@ -1,7 +1,9 @@
 CONSTANTS
   NF = 2  D = 2  CapSmall = 1  CapLarge = 1
   Kinds <- KAll
-  FlushOnWait = TRUE
+  Sizes <- SAll
+  Opts <- OPlain
+  FlushOnWait = TRUE  FlushBeforeDirect = TRUE  ResetSlot = TRUE
 SPECIFICATION Spec
-INVARIANTS TypeOK WholeInOrderOnePerQuery NothingHeldWhileBlocked ClassFits TokenConservation ClosedIsClean
+INVARIANTS TypeOK WholeInOrderOnePerQuery ReplyOptIsOwn SlotIsZeroBetweenRequests NothingHeldWhileBlocked ClassFits TokenConservation ClosedIsClean
 CHECK_DEADLOCK FALSE
